@@ -324,8 +324,15 @@ func (r *AzureSharedResource) Start(ctx context.Context) (err error) {
 
 				// attempt to allocate the partition
 				id := fmt.Sprint(uuid.New())
+				requested := time.Now()
 				leaseTime := r.leaseManager.leasePartition(ctx, id, index)
 				if leaseTime == 0 {
+					continue Loop
+				}
+
+				// the lease began no later than the moment it was requested, so it is counted from then
+				leaseTime -= time.Since(requested)
+				if leaseTime <= 0 {
 					continue Loop
 				}
 
